@@ -316,17 +316,23 @@ Disconnect(T, s, i) ==
     ELSE Ok(RemoveCP(T, CHOOSE q \in SPPeers(T, i) : TRUE, TRUE))
 
 \* ---- facility / switch (composite builders)
-FacilityEls(name, site, rp) ==
-    LET nsn == name \o "-ns" nsp == Path(name, nsn) ifn == name \o "-int" IN
-    [x \in {name, nsp, Path(nsp, ifn)} |->
+\* ifs = <<>>: the original single-interface form (the interface is called <name>-int and takes the call's keyword
+\* properties); otherwise one FacilityPort per listed name, each with the same labels/capacities
+FacilityEls(name, site, rp, ifs) ==
+    LET nsn == name \o "-ns" nsp == Path(name, nsn)
+        ifns == IF ifs = <<>> THEN {name \o "-int"} ELSE ToSet(ifs) IN
+    [x \in {name, nsp} \cup {Path(nsp, ifn) : ifn \in ifns} |->
         IF x = name THEN NodeEl(name, "Facility", site, <<>>)
         ELSE IF x = nsp THEN E(NS, "VLAN", nsn, name, [Layer |-> "L2", StitchNode |-> "false"], <<>>)
-        ELSE E(CP, "FacilityPort", ifn, nsp, Stitch, rp)]
-AddFacility(T, name, site, rp) ==
+        ELSE E(CP, "FacilityPort", CHOOSE ifn \in ifns : Path(nsp, ifn) = x, nsp, Stitch, rp)]
+BadIfs(ifs) == {i \in DOMAIN ifs : ~ValidName(ifs[i]) \/ \E j \in 1..(i - 1) : ifs[j] = ifs[i]}   \* invalid name / name used twice
+AddFacility(T, name, site, rp, ifs) ==
     IF Named(T, NN, name) \cap ViewNodes(T) # {} THEN Fail(T, TErr)
     ELSE IF ~ValidName(name) THEN Fail(T, VErr)
     ELSE IF Named(T, NN, name) # {} THEN Fail(T, QErr)
-    ELSE Ok([T EXCEPT !.el = Over(T.el, FacilityEls(name, site, rp))])
+    ELSE IF BadIfs(ifs) # {} THEN          \* the interfaces are created in order: the first bad one decides
+         (IF ~ValidName(ifs[Min(BadIfs(ifs))]) THEN Fail(T, VErr) ELSE Fail(T, TErr))
+    ELSE Ok([T EXCEPT !.el = Over(T.el, FacilityEls(name, site, rp, ifs))])
 RemoveFacility(T, name) ==
     IF Cardinality(Named(T, NN, name)) # 1 THEN Fail(T, QErr)
     ELSE LET n == CHOOSE p \in Named(T, NN, name) : TRUE IN
@@ -657,7 +663,7 @@ ApplyRaw(T, o) ==
       [] o.op = "Tally"          -> R(T, "ok", [k |-> "tally", v |-> Tally(T)])
       [] o.op = "Connect"        -> Connect(T, o.s, o.i)
       [] o.op = "Disconnect"     -> Disconnect(T, o.s, o.i)
-      [] o.op = "AddFacility"    -> AddFacility(T, o.name, o.site, Fn(o.rp))
+      [] o.op = "AddFacility"    -> AddFacility(T, o.name, o.site, Fn(o.rp), IF "ifs" \in DOMAIN o THEN o.ifs ELSE <<>>)
       [] o.op = "RemoveFacility" -> RemoveFacility(T, o.name)
       [] o.op = "AddSwitch"      -> AddSwitch(T, o.name, o.site, o.nports)
       [] o.op = "RemoveSwitch"   -> RemoveSwitch(T, o.name)
